@@ -455,3 +455,89 @@ pub fn ledger_files<S: Src>(s: &mut S) {
     }
     let _ = std::fs::remove_dir_all(&dir);
 }
+
+// ---- more argument kinds; the two editions declare the methods in a DIFFERENT ORDER (matching is by name) --------
+pub mod w0 {
+    use savefile_derive::savefile_abi_exportable;
+    #[savefile_abi_exportable(version = 0)]
+    pub trait More {
+        fn text(&self, s: &str, big: String) -> String;
+        fn slice(&self, xs: &[u32]) -> Vec<u32>;
+        fn res(&self, x: u8) -> Result<u16, String>;
+        fn opt(&self, x: Option<u8>) -> Option<u8>;
+        fn fm(&self, f: &mut dyn FnMut(u32) -> u32) -> u32;
+        fn nothing(&self);
+    }
+}
+pub mod w1 {
+    use savefile_derive::savefile_abi_exportable;
+    #[savefile_abi_exportable(version = 1)]
+    pub trait More {
+        fn nothing(&self);
+        fn fm(&self, f: &mut dyn FnMut(u32) -> u32) -> u32;
+        fn added_in_v1(&self, x: u8) -> u8;
+        fn opt(&self, x: Option<u8>) -> Option<u8>;
+        fn res(&self, x: u8) -> Result<u16, String>;
+        fn slice(&self, xs: &[u32]) -> Vec<u32>;
+        fn text(&self, s: &str, big: String) -> String;
+    }
+}
+pub struct MoreImpl;
+fn m_text(s: &str, big: String) -> String { format!("{}|{}|{}", s.len(), big.len(), &big[..big.len().min(3)]) }
+fn m_slice(xs: &[u32]) -> Vec<u32> { xs.iter().rev().map(|x| x.wrapping_add(1)).collect() }
+fn m_res(x: u8) -> Result<u16, String> { if x % 2 == 0 { Ok(x as u16 * 3) } else { Err(format!("odd {}", x)) } }
+fn m_opt(x: Option<u8>) -> Option<u8> { x.and_then(|v| if v == 255 { None } else { Some(v + 1) }) }
+fn m_fm(f: &mut dyn FnMut(u32) -> u32) -> u32 { let a = f(1); let b = f(10); a.wrapping_mul(1000).wrapping_add(b) }
+impl w0::More for MoreImpl {
+    fn text(&self, s: &str, big: String) -> String { m_text(s, big) }
+    fn slice(&self, xs: &[u32]) -> Vec<u32> { m_slice(xs) }
+    fn res(&self, x: u8) -> Result<u16, String> { m_res(x) }
+    fn opt(&self, x: Option<u8>) -> Option<u8> { m_opt(x) }
+    fn fm(&self, f: &mut dyn FnMut(u32) -> u32) -> u32 { m_fm(f) }
+    fn nothing(&self) {}
+}
+impl w1::More for MoreImpl {
+    fn nothing(&self) {}
+    fn fm(&self, f: &mut dyn FnMut(u32) -> u32) -> u32 { m_fm(f) }
+    fn added_in_v1(&self, x: u8) -> u8 { x }
+    fn opt(&self, x: Option<u8>) -> Option<u8> { m_opt(x) }
+    fn res(&self, x: u8) -> Result<u16, String> { m_res(x) }
+    fn slice(&self, xs: &[u32]) -> Vec<u32> { m_slice(xs) }
+    fn text(&self, s: &str, big: String) -> String { m_text(s, big) }
+}
+
+/// C09 + C10: strings / slices (small and far beyond any inline argument buffer), Result / Option, FnMut with state,
+/// a method without arguments or return value; caller and implementation declare the methods in different orders.
+pub fn abi_more<S: Src>(s: &mut S) {
+    use w0::More as _;
+    use w1::More as _;
+    let cv = s.below(2);
+    let dv = s.below(2);
+    let big_len = [0usize, 1, 63, 64, 65, 4000, 70_000][s.below(7)];
+    let n = [0usize, 1, 17, 5000][s.below(4)];
+    let x = s.u8();
+    let big: String = "ab".repeat(big_len / 2 + 1)[..big_len].to_string();
+    let xs: Vec<u32> = (0..n as u32).map(|i| i.wrapping_mul(2654435761)).collect();
+    macro_rules! run {
+        ($conn:expr) => {{
+            let conn = $conn;
+            assert!(conn.text("héj", big.clone()) == m_text("héj", big.clone()), "C09: &str and String arguments (String of {} bytes), String return", big_len);
+            assert!(conn.slice(&xs) == m_slice(&xs), "C09: &[u32] argument of {} elements, Vec return", n);
+            assert!(conn.res(x) == m_res(x), "C09: Result return value");
+            assert!(conn.opt(Some(x)) == m_opt(Some(x)) && conn.opt(None) == None, "C09: Option argument and return");
+            let mut calls = 0u32;
+            let got = conn.fm(&mut |v| { calls += 1; v.wrapping_add(x as u32).wrapping_add(calls) });
+            let mut calls2 = 0u32;
+            let want = m_fm(&mut |v| { calls2 += 1; v.wrapping_add(x as u32).wrapping_add(calls2) });
+            assert!(got == want && calls == 2, "C09: a FnMut passed across keeps its state between calls");
+            conn.nothing();
+        }};
+    }
+    let connect_err = "C10: peers declaring the same methods in a different order must connect";
+    match (cv, dv) {
+        (0, 0) => run!(unsafe { AbiConnection::<dyn w0::More>::from_boxed_trait_for_test(<dyn w0::More as AbiExportable>::ABI_ENTRY, Box::new(MoreImpl) as Box<dyn w0::More>) }.expect(connect_err)),
+        (0, _) => run!(unsafe { AbiConnection::<dyn w0::More>::from_boxed_trait_for_test(<dyn w1::More as AbiExportable>::ABI_ENTRY, Box::new(MoreImpl) as Box<dyn w1::More>) }.expect(connect_err)),
+        (_, 0) => run!(unsafe { AbiConnection::<dyn w1::More>::from_boxed_trait_for_test(<dyn w0::More as AbiExportable>::ABI_ENTRY, Box::new(MoreImpl) as Box<dyn w0::More>) }.expect(connect_err)),
+        _ => run!(unsafe { AbiConnection::<dyn w1::More>::from_boxed_trait_for_test(<dyn w1::More as AbiExportable>::ABI_ENTRY, Box::new(MoreImpl) as Box<dyn w1::More>) }.expect(connect_err)),
+    }
+}
